@@ -4,6 +4,7 @@ package main
 // (callee contract) or inlined (no contract / `inline`).  Every check becomes an Obligation.
 
 import (
+	"time"
 	"bytes"
 	"fmt"
 	"go/ast"
@@ -29,6 +30,7 @@ type Obligation struct {
 	Status  string // proved | refuted | undecided | trivial
 	Bounded string
 	Replay  *ReplayInfo
+	Budget  time.Duration // solver budget override (known findings)
 }
 
 type namedTerm struct {
